@@ -795,11 +795,14 @@ RtInitErrorEffect(s, c) ==
     ELSE LET s1 == [s EXCEPT !.rt = "InitError"] IN
          IF s.srv.phase = "invoking"
          THEN \* suppressed init: the error goes to the caller of the invocation in flight
-              LET sb == SendBody(s1, s.srv.inv, call.body, FALSE) IN
+              LET sb == SendBody(s1, s.srv.inv, call.body, call.big) IN
               CASE sb[2] = "ok" -> Answer(sb[1], c, [NoRes EXCEPT !.status = 202])
                 [] sb[2] \in {"InvalidInvokeID", "ResponseSent"} -> Answer(s1, c, Res(400, "InvalidRequestID"))
                 [] OTHER -> Answer(s1, c, Res(0, ""))
-         ELSE Answer([s1 EXCEPT !.srv.cached = call.body], c, [NoRes EXCEPT !.status = 202])
+         \* the payload is cached whatever its size; one above the response size limit reaches the caller of the next
+         \* invocation as the too-large error (tree after the fix of F-C14-1; as found the emulator panicked there)
+         ELSE Answer([s1 EXCEPT !.srv.cached = IF call.big THEN <<"err", "Function.ResponseSizeTooLarge">> ELSE call.body], c,
+                     [NoRes EXCEPT !.status = 202])
 
 \* identifier middleware + lookup for extension calls: "" when the agent is known
 AgentIdProblem(s, call) ==
